@@ -15,6 +15,17 @@ root = os.path.dirname(os.path.dirname(os.path.abspath(__file__)))
 tmpl = open("/tmp/seedout/PROMPT_TEMPLATE.txt").read() if os.path.exists("/tmp/seedout/PROMPT_TEMPLATE.txt") else open(os.path.join(root, "tools/SEED_PROMPT_TEMPLATE.txt")).read()
 
 EMPH = {
+    "8": ("This is the eighth round. Prefer changes of these kinds, which earlier rounds under-used: "
+          "(a) OBSERVATION channels the property names but ordinary tests never read: reported sizes and counters, status codes and echoed parameters, dataset fields, "
+          "returned booleans/errors, the token or mark carried along - the main effect stays right, what is reported or passed on is wrong in one situation; "
+          "(b) determinism of ordering and tie-breaking: a result that starts to depend on map iteration order, an unstable sort, equal-cost or equal-time ties resolved differently on two paths; "
+          "(c) the boundary between two representations of 'nothing': nil vs empty, zero vs absent optional field, a default applied on one path but not the other, an option cleared vs never set; "
+          "(d) coincidences in time: two events at the same instant, an entry refreshed exactly at / just before its expiry, a timer re-armed from the wrong base, an operation arriving between the "
+          "two halves of another (after the check, before the update); "
+          "(e) a multi-step update that stops half-way: an early return, an error or a 'nothing to do' shortcut that leaves one of two structures updated (routing table vs forwarding table, "
+          "index map vs queue, pending table vs token map, store vs metadata); "
+          "(f) rarely exercised protocol features: forwarding hints, implicit digests, FinalBlockId, MustBeFresh together with CanBePrefix, congestion marks, Nack reasons, link types "
+          "(multi-access / ad hoc), face persistency, expiration periods, second-best next hops. "),
     "7": ("This is the seventh round. Prefer changes of these kinds, which earlier rounds under-used: "
           "(a) memory aliasing and buffer re-use: a defensive copy dropped or moved, a returned slice that aliases internal state, append() on a shared backing array, "
           "a pooled/re-used object not reset, a value captured by reference and changed later - visible only when the caller or a later operation re-uses the memory; "
